@@ -10,7 +10,7 @@ def queries(tier, seed):
         if spix: d['SPIX'] = spix
         p = [L] + list(params); p += [0] * (12 - len(p)) + [w, h] + list(rect) + list(probe)
         if stream is not None: d['VP_STREAM_AT'] = 22; p += [0, 0, len(stream)] + list(stream)
-        qs.append(Q(name, 'C13/agree.cpp', 'h_agree', defs=d, params=p, rt=['file'] + (['ios'] if mode == 8 else []), unwind=unw or (max(16, 4 * w + 4) if not refconv else 70), unwindset=([(r'St6vector|fill_n|uninitialized|read_palette', 310)] if refconv else []) + ([(r'scanline_reader|read_palette_image', 2100)] if mode in (7, 9) else []), rt_unwind=L + 4, mem_unwind=400, cdefs=dict(VP_FILE_MAX=L + 8), tier=t, timeout=300))
+        qs.append(Q(name, 'C13/agree.cpp', 'h_agree', defs=d, params=p, rt=['file'] + (['ios'] if mode == 8 else []), unwind=max(unw or 0, (w + 2) * (h + 2) + 4, (max(16, 4 * w + 4) if not refconv else 70)), unwindset=([(r'St6vector|fill_n|uninitialized|read_palette', 310)] if refconv else []) + ([(r'scanline_reader|read_palette_image', 2100)] if mode in (7, 9) else []), rt_unwind=L + 4, mem_unwind=400, cdefs=dict(VP_FILE_MAX=L + 8), tier=t, timeout=300))
     variants = []
     for (w, h) in ((3, 2), (4, 3), (1, 1)):
         rb = ((w * 24 + 31) // 32) * 4
